@@ -26,12 +26,36 @@ Proof.
   cbv beta in S. apply Bool.eqb_prop in S. exact S.
 Qed.
 
-Lemma decode_channel_spec b0 b1 b2 : is_byte b1 -> decode_channel b0 b1 b2 = chan_spec b0 b1 b2.
+Lemma chan_error_eqb_sound a b : chan_error_eqb a b = true -> a = b.
 Proof.
-  intros H1. unfold decode_channel, chan_spec, dtype_from_byte2, error_from_byte2,
+  destruct a, b; cbn; intros H; try discriminate H; try reflexivity; apply Z.eqb_eq in H; congruence.
+Qed.
+
+Lemma chan_error_eqb_refl a : chan_error_eqb a a = true.
+Proof. destruct a; cbn; try reflexivity; apply Z.eqb_refl. Qed.
+
+Lemma chan_dtype_eqb_sound a b : chan_dtype_eqb a b = true -> a = b.
+Proof. destruct a, b; cbn; intros H; try discriminate H; reflexivity. Qed.
+
+Lemma tables_as_specified b2 : is_byte b2 ->
+  chan_dtype_from_bits (b2 / 32) = dtype_spec (b2 / 32) /\
+  chan_error_from_code (b2 mod 32) = error_spec (b2 mod 32).
+Proof.
+  intros H.
+  pose proof (sweep256 (fun b => chan_dtype_eqb (chan_dtype_from_bits (b / 32)) (dtype_spec (b / 32)) &&
+                                 chan_error_eqb (chan_error_from_code (b mod 32)) (error_spec (b mod 32)))
+                       eq_refl b2 H) as S.
+  cbv beta in S. apply andb_prop in S. destruct S as [A B].
+  split; [apply chan_dtype_eqb_sound, A|apply chan_error_eqb_sound, B].
+Qed.
+
+Lemma decode_channel_spec b0 b1 b2 : is_byte b1 -> is_byte b2 -> decode_channel b0 b1 b2 = chan_spec b0 b1 b2.
+Proof.
+  intros H1 H2. unfold decode_channel, chan_spec, dtype_from_byte2, error_from_byte2,
     chan_module_mask, chan_channel_mask, chan_input_mask, chan_output_mask, chan_dtype_shift, chan_error_mask.
   rewrite !land63, land31, bit6, bit7 by exact H1.
-  rewrite shiftr_div by lia. reflexivity.
+  rewrite shiftr_div by lia. change (2 ^ 5) with 32.
+  destruct (tables_as_specified b2 H2) as [-> ->]. reflexivity.
 Qed.
 
 Lemma all_bytes_skipn (l : bytes) n : all_bytes l -> all_bytes (skipn n l).
@@ -254,8 +278,9 @@ Proof.
     + (* channel *)
       destruct tl as [|b1 [|b2 tl']]; [reflexivity|reflexivity|].
       assert (H1 : is_byte b1) by (inversion Htl; assumption).
+      assert (H2 : is_byte b2) by (inversion Htl as [|? ? ? Htl2]; inversion Htl2; assumption).
       cbn [length Nat.ltb Nat.leb get nth_error bind firstn decode_block].
-      rewrite T. cbn [Z.eqb Pos.eqb]. rewrite decode_channel_spec by exact H1. reflexivity.
+      rewrite T. cbn [Z.eqb Pos.eqb]. rewrite decode_channel_spec by assumption. reflexivity.
     + (* reserved *)
       reflexivity.
 Qed.
@@ -411,17 +436,6 @@ Qed.
 
 (* ------------------------------------------------------------------ channel byte decoding *)
 
-Lemma chan_error_eqb_sound a b : chan_error_eqb a b = true -> a = b.
-Proof.
-  destruct a, b; cbn; intros H; try discriminate H; try reflexivity; apply Z.eqb_eq in H; congruence.
-Qed.
-
-Lemma chan_error_eqb_refl a : chan_error_eqb a a = true.
-Proof. destruct a; cbn; try reflexivity; apply Z.eqb_refl. Qed.
-
-Lemma chan_dtype_eqb_sound a b : chan_dtype_eqb a b = true -> a = b.
-Proof. destruct a, b; cbn; intros H; try discriminate H; reflexivity. Qed.
-
 Definition dtype_okb (t : Z) (d : chan_dtype) : bool :=
   if (1 <=? t) && (t <=? 6) then chan_dtype_disc d =? t else chan_dtype_eqb d DtInvalid.
 
@@ -447,11 +461,11 @@ Proof.
 Qed.
 
 Definition byte2_okb (b2 : Z) : bool :=
-  dtype_okb (b2 / 32) (chan_dtype_from_bits (b2 / 32)) &&
-  error_okb (b2 mod 32) (chan_error_from_code (b2 mod 32)) &&
+  dtype_okb (b2 / 32) (dtype_spec (b2 / 32)) &&
+  error_okb (b2 mod 32) (error_spec (b2 mod 32)) &&
   (if b2 <? 32 then true
-   else Z.lor (chan_error_to_byte2 (chan_error_from_code (b2 mod 32)))
-              (chan_dtype_to_byte2 (chan_dtype_from_bits (b2 / 32))) =? b2).
+   else Z.lor (chan_error_to_byte2 (error_spec (b2 mod 32)))
+              (chan_dtype_to_byte2 (dtype_spec (b2 / 32))) =? b2).
 
 Lemma byte2_sweep b2 : is_byte b2 -> byte2_okb b2 = true.
 Proof. intros H. exact (sweep256 byte2_okb eq_refl b2 H). Qed.
@@ -464,7 +478,7 @@ Lemma channel_decode : forall b0 b1 b2, is_byte b0 -> is_byte b1 -> is_byte b2 -
   error_as_specified (b2 mod 32) (c_error c) /\
   (32 <= b2 -> Z.lor (chan_error_to_byte2 (c_error c)) (chan_dtype_to_byte2 (c_dtype c)) = b2).
 Proof.
-  intros b0 b1 b2 H0 H1 H2. cbv zeta. rewrite decode_channel_spec by exact H1.
+  intros b0 b1 b2 H0 H1 H2. cbv zeta. rewrite decode_channel_spec by assumption.
   unfold chan_spec. cbn [c_module c_channel c_input c_output c_dtype c_error].
   pose proof (byte2_sweep b2 H2) as S. unfold byte2_okb in S.
   apply andb_prop in S. destruct S as [S R]. apply andb_prop in S. destruct S as [D E].
